@@ -132,15 +132,19 @@ PROPS = {
     ),
     'C03': dict(
         level='other',
-        functions=[SEQ + f for f in ('countPos', 'countNeg', 'countNeut', 'FCR', 'delta', '__init__', 'deltaMax')] + [SP + 'get_deltaMax'],
-        lemmas=['count_partition', 'npos_nonneg', 'nneg_nonneg', 'nneut_nonneg', 'rmax_lower'],
+        functions=[SEQ + f for f in ('countPos', 'countNeg', 'countNeut', 'FCR', 'delta', '__init__', 'deltaMax', 'deltaMax#permutant', '__permutant_from_reduced_seq')] + [SP + 'get_deltaMax'],
+        lemmas=['count_partition', 'npos_nonneg', 'nneg_nonneg', 'nneut_nonneg', 'rmax_lower', 'n_sym_strict_plus', 'n_sym_strict_minus', 'n_sym_strict_zero',
+                'n_sym_nonneg_plus', 'n_sym_nonneg_minus', 'n_sym_nonneg_zero', 'cnt_ext', 'nsym_split', 'nsym_all', 'nsym_none', 'npos_ext', 'nneg_ext', 'dform_ext',
+                'C05_delta_substitution', 'dform_nonneg', 'delta_nonneg', 'cnt_split', 'cnt_nonneg', 'dform_uncharged', 'delta_uncharged'],
         native='c03',
-        explanation='proved for all sequences and both cache states: get_deltaMax() equals dmax_spec(n+, n-, n0) - a function of the three counts only - which is the running maximum of delta over '
-                    'the documented family (regime dispatch, tie rules, 17/18 boundary, every candidate string built as documented, loop invariants for the eight search loops). '
-                    'NOT yet under contract: the returned permutant (returnSeqDeltaMax=True path, __permutant_from_reduced_seq) - bounded native check stands in (every composition up to length 14/26, '
-                    'kappa-first histories on every canonical pattern up to length 8/10)',
+        explanation='proved for all sequences: get_deltaMax() equals dmax_spec(n+, n-, n0) - a function of the three counts only - the running maximum of delta over the documented family (regime dispatch, tie rules, 17/18 boundary, '
+                    'every candidate string built as documented, invariants for the eight search loops), from every cache state. With returnSeqDeltaMax=True (fresh object, value cached but permutant absent, both cached) the second component is a string of '
+                    'amino-acid letters of the input\'s length with the input\'s numbers of positive, negative and neutral residues whose delta (Das-Pappu definition) EQUALS the returned value: the builder __permutant_from_reduced_seq is proved to '
+                    'emit, position by position, a parent residue of the candidate\'s charge class without ever running out of residues, and the class-substitution theorem of C05 transfers the candidate\'s delta. '
+                    'NOT proved: that the permutant uses each input LETTER exactly once (letter-level multiset; the proof is at the level of charge classes) - bounded native check (every composition up to length 14/26, kappa-first histories)',
         assumptions=['tie rule of "minority block slid through the majority": on equal block lengths the code slides the neutral (resp. positive) block; the statement does not settle ties and the spec follows the code',
-                     'returned permutant (attainment clause): bounded native check only'],
+                     'letter-level multiset equality of the permutant: bounded native check only',
+                     '[x for x in s if P(x)] is modelled as a filter (length = count, order kept, onto)'],
         design_ref='2 / C03',
     ),
     'C06': dict(
